@@ -55,6 +55,10 @@ CLAIMED = {
  'C01': ('exploration', 'offline exactly-once / ordering checker over the hook event log of full-pipeline runs + in-line tree assertion at the finish notification + quiescent reactor invariants; configuration matrix, seeded schedule perturbation, race-detector sample',
          'The whole real pipeline (controler.Start, local queue, WARC writing, real HTTP against a scripted origin on loopback) processes generated sites; per run the event log (total order) must show exactly one finish notification per accepted seed, none for unknown seeds, no stage/archiver activity for a seed after its notification, no node awaiting fetch/post-processing at the notification, an empty reactor at quiescence.',
          'Schedules sampled; quiescence = 6.5 s without hook events or open origin requests; seeds enter through hubs (input seeds) and the real LQ.', '4/C01'),
+
+ 'C02': ('exploration', 'in-line monitor at the finish notification: independent WARC reader over the job files joined with the origin log through archiver hook events (responses received per seed and URL); byte identity by SHA-1 and length; configuration matrix',
+         'At the instant a seed is about to be acknowledged to the queue, every response the archiver received for it and the discard policy accepts must be visible in the WARC files as request + response/revisit records for exactly that URL with the payload the origin sent; rejected responses must be absent; every gzip member must hold exactly one well-formed record.',
+         'Synchronous WARC mode; bodies/encodings/framings/statuses sampled by a generator around the sniff, dedupe and spool thresholds; origin and crawler in one process on loopback.', '4/C02'),
 }
 NOT_BUILT = 'check not built yet in this session (planned, see DESIGN.md section 4)'
 
